@@ -43,11 +43,12 @@ What is proved about INTROSPECTED proxies and BYTES (added later):
   `dataReceived`; every byte-level run is matched by a message-level run; byte-level quiescence gives `Completed`.
 
 Extension 2026-09-30:
-* `bytes_quiescence_reachable`, `bytes_quiescence_reachable_in_class`, `C11_bytes_completion_always_reachable_partial` -
-  byte-level PROGRESS: the canonical draining schedule reaches byte-level quiescence from every reachable state; every
-  byte-level run can be extended to a quiescent one in which every call to an attached client is `Completed`;
-* `bytes_run_from_handshake_reduces`, `C11_bytes_from_handshake_partial` - runs that begin BEFORE the end of the
-  handshake (receivers in line mode, hand-off with message bytes in the same read: C04's `handoff` composed);
+* `bytes_quiescence_reachable_in_domain`, `bytes_quiescence_reachable_in_class_in_domain`,
+  `C11_bytes_completion_always_reachable_partial` - byte-level PROGRESS, conditional on the codec's domain containing
+  what the draining schedule serialises: the schedule reaches byte-level quiescence; the run can be extended by reads and
+  firings only to a quiescent one in which every call to an attached client is `Completed`;
+* `bytes_run_from_handshake_reduces_partial`, `C11_bytes_from_handshake_partial` - C04's hand-off lifted to the network
+  for a SYNTHETIC prefilled handshake (not the real dialogue; see the theorem's doc);
 * `getRemoteObject_introspects_iff_unknown_name`, `getRemoteObject_built_lists_every_requested`,
   `getRemoteObject_built_agrees` - the `interfaces=` argument of `getRemoteObject` (Net/GetProxy.lean).
 
@@ -451,7 +452,7 @@ wire, nothing buffered by any receiver and no unfired Deferred: a message-level 
 state has the same client logs, is quiescent, and therefore (`C11_end_to_end`) has every call issued to an attached
 client `Completed`: exactly one completion, exactly one answer, the invocation exactly once iff accepted.
 
-Missing for the unqualified name (state of 2026-09-30; items (2) and (3) of the earlier list are theorems now):
+Missing for the unqualified name (state of 2026-09-30, after review 3):
 (1) [closed up to the representation by `C11_wire_codec_laws_c03` / `C11_bytes_any_delivery_order_c03_partial`, section
     3e'' below: `c03Codec` = C03's model of message.py - constructor calls for what clients write, `parseMessage` +
     `forward` for what the bus writes - satisfies `WireCodec.Laws` on the domain `C03Ok` = the premises of C03's
@@ -462,14 +463,18 @@ Missing for the unqualified name (state of 2026-09-30; items (2) and (3) of the 
     unstamped and stamped (`exM0_ok`), proved for no `R` in general; the body codec enters through its round-trip clauses
     (C01's `parse_marshal_with_C01` is not composed); descriptors (`unix_fds`) are excluded; `c03Codec` itself is tied to
     the code only through C03's streams (its parts are C03's model), not by a C11 stream - `bytes-net` runs the TABLE codec;
-(2) [closed up to two restrictions by `bytes_run_from_handshake_reduces` / `C11_bytes_from_handshake_partial`: runs
-    from `BNet.initH`, every receiver still in line mode, the remaining authentication lines in front of each wire]
-    - the FIRST read on a link must take the whole remaining handshake (`HSRun`; it may take message bytes with it: the
-    hand-off); a handshake consumed over several reads of the SAME state is C04 `line_partition_independent`, not
-    composed here; - `Hello`, `NameAcquired` and every message to the bus itself (C13) are not in the model; who writes
-    the authentication lines and when is C06/C07's;
-(3) [closed by `bytes_quiescence_reachable` / `C11_bytes_completion_always_reachable_partial`: byte-level PROGRESS for
-    runs from `BNet.init`; not transferred to runs from `BNet.initH`];
+(2) the handshake before binary mode: NOT closed.  `bytes_run_from_handshake_reduces_partial` /
+    `C11_bytes_from_handshake_partial` lift C04's single-read hand-off to the network for a SYNTHETIC start (`BNet.initH`:
+    the lines a receiver still expects are constants in front of its wire); the real handshake is a dialogue (lines are
+    written in response to lines: C06/C07, Auth/Handshake2.lean), the first frame behind `BEGIN` is `Hello`, and nothing
+    is routed to a client before its `Hello` - so every instance in which message bytes of THIS model share a read with
+    a handshake line is unreachable with txdbus peers; `Hello`, `NameAcquired` and every message to the bus itself (C13)
+    are not in the model;
+(3) byte-level PROGRESS for runs from `BNet.init`: `bytes_quiescence_reachable_in_domain` /
+    `C11_bytes_completion_always_reachable_partial` - CONDITIONAL on a domain hypothesis about what the draining schedule
+    will serialise (a premise about the model's own future computation; dischargeable by evaluating a concrete run:
+    `drain_domain_of_stopped`; no closure lemma - `Ok` closed under `withSender` / replies - derives it from the inputs,
+    neither for the abstract `Ok` nor for `C03Ok`); not transferred to runs from `BNet.initH`;
 (4) `hok` constrains what the run serialises (calls, replies, error texts, the bus's stamped copies) to the codec's
     domain; nothing relates that domain to `World.encErr = none`, the model's own "this body encodes"; the progress
     theorem needs the domain to contain what the draining schedule serialises as well;
@@ -524,15 +529,18 @@ theorem bytes_nothing_stuck_in_a_receiver {α : Type} (C : WireCodec V) (Ok : Ms
   obtain ⟨msteps, hs⟩ := bytes_run_simulated C Ok hC A a0 w n first bsteps hok
   exact hs.no_complete_frame_buffered c
 
-/-- **Byte-level `quiescence_reachable`** (byte-level PROGRESS).  From every state a byte-level run reaches, the
+/-- **Byte-level `quiescence_reachable`, CONDITIONAL on the codec's domain** (byte-level PROGRESS; `_in_domain`: unlike
+the message-level `quiescence_reachable` this is not unconditional - `hok` is a premise about the model's own future
+computation, what the draining schedule will serialise, and no closure lemma derives it from the inputs: for the abstract
+`Ok` there is nothing to derive it from, for `C03Ok` closure under `withSender` / replies is not proved).  From every state a byte-level run reaches, the
 canonical draining schedule `drain` (Net/Bytes.lean: the bus reads everything queued on a link; a client reads everything
 queued for it, every invocation this leads to returning a Deferred; the oldest Deferred of a client fires with the result
 `fire c e` - any policy `fire`) reaches `BNet.Quiescent` after finitely many steps: nothing can get stuck on a wire or
 in a receiver's buffer.  The domain hypothesis `hok` covers the run AND what the draining schedule serialises (the bus's
 stamped copies, the replies) - no lawful codec is total, so some such hypothesis is unavoidable; being about ONE
 computable schedule it is checked by evaluation (`drain_domain_of_stopped`), as the example at the end of this file
-does.  `bytes_quiescence_reachable_in_class` restates it for any class of continuations closed under these steps. -/
-theorem bytes_quiescence_reachable {α : Type} (C : WireCodec V) (Ok : Msg V → Prop) (hC : C.Laws Ok)
+does.  `bytes_quiescence_reachable_in_class_in_domain` restates it for any class of continuations closed under these steps. -/
+theorem bytes_quiescence_reachable_in_domain {α : Type} (C : WireCodec V) (Ok : Msg V → Prop) (hC : C.Laws Ok)
     (A : Txdbus.Proto.Auth α) (a0 : α) (w : World V) (n : Nat) (first : Nat → Nat) (bsteps : List (BStep V))
     (fire : Nat → Exec → Result V)
     (hok : ∀ fuel m, m ∈ (brun C A w (BNet.init n first a0)
@@ -550,8 +558,9 @@ theorem bytes_quiescence_reachable {α : Type} (C : WireCodec V) (Ok : Msg V →
 
 /-- The same for any class `P` of continuation steps that contains the reads and, for every unfired Deferred, one
 firing: if every continuation of the run by steps in `P` stays in the codec's domain, one of them ends quiescent.
-(`P := fun _ => True`: the domain contains whatever any continuation serialises.) -/
-theorem bytes_quiescence_reachable_in_class {α : Type} (C : WireCodec V) (Ok : Msg V → Prop) (hC : C.Laws Ok)
+(`P` should be small: for a class containing `call` steps with arbitrary arguments the hypothesis is unsatisfiable for
+every non-total codec.) -/
+theorem bytes_quiescence_reachable_in_class_in_domain {α : Type} (C : WireCodec V) (Ok : Msg V → Prop) (hC : C.Laws Ok)
     (A : Txdbus.Proto.Auth α) (a0 : α) (w : World V) (n : Nat) (first : Nat → Nat) (bsteps : List (BStep V))
     (P : BStep V → Prop) (fire : Nat → Exec → Result V)
     (hP1 : ∀ c k, P (.readBus c k)) (hP2 : ∀ c k, P (.readClient c k []))
@@ -565,14 +574,14 @@ theorem bytes_quiescence_reachable_in_class {α : Type} (C : WireCodec V) (Ok : 
     · exact hP1 c k
     · exact hP2 c k
     · exact hP3 c e
-  obtain ⟨fuel, hq⟩ := bytes_quiescence_reachable C Ok hC A a0 w n first bsteps fire
+  obtain ⟨fuel, hq⟩ := bytes_quiescence_reachable_in_domain C Ok hC A a0 w n first bsteps fire
     (fun fuel m hm => hok _ (hin fuel) m hm)
   exact ⟨_, hin fuel, hq⟩
 
 /-- **C11 at byte level, without assuming quiescence** (PARTIAL for the reasons (1), (2), (4)-(7) listed above
 `C11_bytes_any_delivery_order_partial`; (3) is closed by this theorem).  Every byte-level run - any interleaving of
-calls, reads of any sizes on any link, firings, deadlines - can be EXTENDED (by the draining schedule: reads and
-Deferred firings only) to a run that ends with nothing on any wire, nothing buffered and no unfired Deferred, and in
+calls, reads of any sizes on any link, firings, deadlines - can be EXTENDED by reads and Deferred firings ONLY (first
+clause: no `call`, no `expire` step is added, so no completion of the extension is a `TimeOut` of its making) to a run that ends with nothing on any wire, nothing buffered and no unfired Deferred, and in
 that run every call issued to an attached client is `Completed`: exactly one completion, exactly one answer, the
 invocation exactly once iff accepted - read off a message-level schedule with the same client logs. -/
 theorem C11_bytes_completion_always_reachable_partial {α : Type} (C : WireCodec V) (Ok : Msg V → Prop)
@@ -580,7 +589,10 @@ theorem C11_bytes_completion_always_reachable_partial {α : Type} (C : WireCodec
     (bsteps : List (BStep V)) (fire : Nat → Exec → Result V)
     (hok : ∀ fuel m, m ∈ (brun C A w (BNet.init n first a0)
       (bsteps ++ drain C A w fire fuel (brun C A w (BNet.init n first a0) bsteps))).sent → Ok m) :
-    ∃ more, (brun C A w (BNet.init n first a0) (bsteps ++ more)).Quiescent ∧
+    ∃ more,
+      (∀ st, st ∈ more → (∃ c k, st = .readBus c k) ∨ (∃ c k, st = .readClient c k []) ∨
+        (∃ c e, st = .resolve c e.tok (fire c e))) ∧
+      (brun C A w (BNet.init n first a0) (bsteps ++ more)).Quiescent ∧
       ∃ msteps,
         (run w (Net.init n first) msteps).Quiescent ∧
         (∀ c, ((brun C A w (BNet.init n first a0) (bsteps ++ more)).cl c).issued =
@@ -593,57 +605,67 @@ theorem C11_bytes_completion_always_reachable_partial {α : Type} (C : WireCodec
                 ((run w (Net.init n first) msteps).cl c).answers) ∧
         ∀ a, a < n → ∀ r, r ∈ ((brun C A w (BNet.init n first a0) (bsteps ++ more)).cl a).issued → r.dest < n →
           ∃ o ans, Completed w (run w (Net.init n first) msteps) a r o ans := by
-  obtain ⟨fuel, hq⟩ := bytes_quiescence_reachable C Ok hC A a0 w n first bsteps fire hok
-  exact ⟨_, hq, C11_bytes_any_delivery_order_partial C Ok hC A a0 w n first _ (hok fuel) hq⟩
+  obtain ⟨fuel, hq⟩ := bytes_quiescence_reachable_in_domain C Ok hC A a0 w n first bsteps fire hok
+  exact ⟨_, fun st hst => drain_mem C A w fire fuel _ st hst, hq,
+    C11_bytes_any_delivery_order_partial C Ok hC A a0 w n first _ (hok fuel) hq⟩
 
-/-! ## 3e'. the handshake before binary mode -/
+/-! ## 3e'. a synthetic start before the end of the handshake -/
 
-/-- **Runs that begin before the end of the handshake.**  `BNet.initH`: every receiver - the bus's protocol instance
-for each connection, each client's own - is still in LINE mode, and each wire starts with the remaining authentication
-lines (`Spec.unlines (lines ++ [last])`, accepted by the receiving authenticator: `HandshakeOK`); message bytes queue up
-behind them.  For every byte-level run from there in which the first read on a link takes at least these lines (`HSRun`:
-so the final handshake line and message bytes may come in ONE read - the hand-off of `dataReceived`, C04 `handoff`;
-afterwards reads are arbitrary): there is a run of the same length from `BNet.init` - the state after the handshake -
-that ends in the same state up to `HRel`: same clients, same `dropped` and `sent` logs, the same wire and buffer on
-every link that has been read, the handshake still in front of the wire on the others.  So every theorem about runs
-from `BNet.init` holds for these runs (next theorem).  C04's theorems are used for the single hand-off read
-(Proofs/Net/BytesHandshake.lean `handoff_one_read`). -/
-theorem bytes_run_from_handshake_reduces {α : Type} (C : WireCodec V) (A : Txdbus.Proto.Auth α) (a0 : α) (w : World V)
+/-- **The C04 hand-off lifted to the network, for a SYNTHETIC prefilled handshake** (PARTIAL: see what is missing below).
+`BNet.initH`: per link and direction the receiver is either already in binary mode (`hs = []`) or still in LINE mode with
+the authentication lines it still expects already in front of its wire (`HsOK`: `Spec.unlines (lines ++ [last])`,
+accepted by ITS authenticator state `aUp c` / `aDown c`); message bytes queue up behind them.  For every byte-level run
+from there in which the FIRST read on a line-mode link takes at least these lines (`HSRun`; it may take message bytes
+with them - the hand-off of `dataReceived`, C04 `handoff`; afterwards reads are arbitrary): a run of the same length
+from `BNet.init` ends in the same state up to `HRel` (same clients, `dropped`, `sent`; same wire and buffer on every link
+that has been read).  The state of a real connection between the client's `BEGIN` and the bus's reading it is the instance
+`hsUp c = BEGIN\r\n`, `hsDown c = []`; there `HSRun` only forbids a read that ends inside `BEGIN\r\n`.
+
+MISSING (why `_partial`, and why this does not close item (2)): the real handshake is a DIALOGUE - the bus writes `OK`
+while reading `AUTH`, the client writes `BEGIN` while reading `OK` (C06/C07; Auth/Handshake2.lean models it for one
+connection) - whereas here the expected lines are constants already on the wire and nobody writes a line in response, so
+with more than the final line in `hsUp` the schedules of `HSRun` and the schedules of txdbus peers are DISJOINT (the real
+first read on the up link is `AUTH…` alone: `BEGIN` does not exist yet).  The first message behind `BEGIN` is `Hello`
+(not in this model); a method call in that place makes the real bus drop the connection, and nothing is ever routed to
+a client before its `Hello`: every instance in which MESSAGE bytes of this model share a read with a handshake line is
+unreachable with txdbus peers (the frame stands where `Hello` stands in reality).  A handshake line cut by a read
+(C04 `line_partition_independent`) is not composed.  The statement gives only the LENGTH of the matching run (the proof
+builds it step by step with the first reads shortened). -/
+theorem bytes_run_from_handshake_reduces_partial {α : Type} (C : WireCodec V) (A : Txdbus.Proto.Auth α) (a0 : α)
+    (aUp aDown : Nat → α) (w : World V)
     (n : Nat) (first : Nat → Nat) (hsUp hsDown : Nat → Txdbus.Proto.Bytes)
-    (hup : ∀ c, ∃ lines last, hsUp c = Txdbus.Proto.Spec.unlines (lines ++ [last]) ∧ HandshakeOK A a0 lines last)
-    (hdown : ∀ c, ∃ lines last, hsDown c = Txdbus.Proto.Spec.unlines (lines ++ [last]) ∧ HandshakeOK A a0 lines last)
-    (bsteps : List (BStep V)) (hrun : HSRun C A w hsUp hsDown (BNet.initH n first a0 hsUp hsDown) bsteps) :
+    (hup : ∀ c, HsOK A (aUp c) (hsUp c)) (hdown : ∀ c, HsOK A (aDown c) (hsDown c))
+    (bsteps : List (BStep V)) (hrun : HSRun C A w hsUp hsDown (BNet.initH n first aUp aDown hsUp hsDown) bsteps) :
     ∃ bsteps', bsteps'.length = bsteps.length ∧
-      HRel A hsUp hsDown (brun C A w (BNet.initH n first a0 hsUp hsDown) bsteps)
+      HRel A hsUp hsDown (brun C A w (BNet.initH n first aUp aDown hsUp hsDown) bsteps)
         (brun C A w (BNet.init n first a0) bsteps') :=
-  handshake_run_reduces C A w bsteps (hrel_init A n first a0 hsUp hsDown hup hdown) hrun
+  handshake_run_reduces C A w bsteps (hrel_init A n first a0 aUp aDown hsUp hsDown hup hdown) hrun
 
-/-- **C11 at byte level, from before the end of the handshake** (PARTIAL like `C11_bytes_any_delivery_order_partial`,
-item (2) of whose list this closes up to the restriction `HSRun` on the FIRST read of each link and up to `Hello` /
-messages to the bus itself).  A run from `BNet.initH` that ends quiescent (so every link has been read: a wire that
-still starts with a handshake is not empty): a message-level schedule exists with the same client logs, quiescent, in
-which every call issued to an attached client is `Completed`. -/
+/-- **C11 at byte level from the synthetic start** (PARTIAL like `C11_bytes_any_delivery_order_partial`, and for the
+reasons listed at `bytes_run_from_handshake_reduces_partial`).  Such a run ending quiescent (so every line-mode link has
+been read): a message-level schedule exists with the same client logs, quiescent, in which every call issued to an
+attached client is `Completed`. -/
 theorem C11_bytes_from_handshake_partial {α : Type} (C : WireCodec V) (Ok : Msg V → Prop) (hC : C.Laws Ok)
-    (A : Txdbus.Proto.Auth α) (a0 : α) (w : World V) (n : Nat) (first : Nat → Nat)
+    (A : Txdbus.Proto.Auth α) (a0 : α) (aUp aDown : Nat → α) (w : World V) (n : Nat) (first : Nat → Nat)
     (hsUp hsDown : Nat → Txdbus.Proto.Bytes)
-    (hup : ∀ c, ∃ lines last, hsUp c = Txdbus.Proto.Spec.unlines (lines ++ [last]) ∧ HandshakeOK A a0 lines last)
-    (hdown : ∀ c, ∃ lines last, hsDown c = Txdbus.Proto.Spec.unlines (lines ++ [last]) ∧ HandshakeOK A a0 lines last)
-    (bsteps : List (BStep V)) (hrun : HSRun C A w hsUp hsDown (BNet.initH n first a0 hsUp hsDown) bsteps)
-    (hok : ∀ m, m ∈ (brun C A w (BNet.initH n first a0 hsUp hsDown) bsteps).sent → Ok m)
-    (hq : (brun C A w (BNet.initH n first a0 hsUp hsDown) bsteps).Quiescent) :
+    (hup : ∀ c, HsOK A (aUp c) (hsUp c)) (hdown : ∀ c, HsOK A (aDown c) (hsDown c))
+    (bsteps : List (BStep V)) (hrun : HSRun C A w hsUp hsDown (BNet.initH n first aUp aDown hsUp hsDown) bsteps)
+    (hok : ∀ m, m ∈ (brun C A w (BNet.initH n first aUp aDown hsUp hsDown) bsteps).sent → Ok m)
+    (hq : (brun C A w (BNet.initH n first aUp aDown hsUp hsDown) bsteps).Quiescent) :
     ∃ msteps,
       (run w (Net.init n first) msteps).Quiescent ∧
-      (∀ c, ((brun C A w (BNet.initH n first a0 hsUp hsDown) bsteps).cl c).issued =
+      (∀ c, ((brun C A w (BNet.initH n first aUp aDown hsUp hsDown) bsteps).cl c).issued =
               ((run w (Net.init n first) msteps).cl c).issued ∧
-            ((brun C A w (BNet.initH n first a0 hsUp hsDown) bsteps).cl c).completions =
+            ((brun C A w (BNet.initH n first aUp aDown hsUp hsDown) bsteps).cl c).completions =
               ((run w (Net.init n first) msteps).cl c).completions ∧
-            ((brun C A w (BNet.initH n first a0 hsUp hsDown) bsteps).cl c).invocations =
+            ((brun C A w (BNet.initH n first aUp aDown hsUp hsDown) bsteps).cl c).invocations =
               ((run w (Net.init n first) msteps).cl c).invocations ∧
-            ((brun C A w (BNet.initH n first a0 hsUp hsDown) bsteps).cl c).answers =
+            ((brun C A w (BNet.initH n first aUp aDown hsUp hsDown) bsteps).cl c).answers =
               ((run w (Net.init n first) msteps).cl c).answers) ∧
-      ∀ a, a < n → ∀ r, r ∈ ((brun C A w (BNet.initH n first a0 hsUp hsDown) bsteps).cl a).issued → r.dest < n →
+      ∀ a, a < n → ∀ r, r ∈ ((brun C A w (BNet.initH n first aUp aDown hsUp hsDown) bsteps).cl a).issued → r.dest < n →
         ∃ o ans, Completed w (run w (Net.init n first) msteps) a r o ans := by
-  obtain ⟨bsteps', _, hr⟩ := bytes_run_from_handshake_reduces C A a0 w n first hsUp hsDown hup hdown bsteps hrun
+  obtain ⟨bsteps', _, hr⟩ :=
+    bytes_run_from_handshake_reduces_partial C A a0 aUp aDown w n first hsUp hsDown hup hdown bsteps hrun
   have hok' : ∀ m, m ∈ (brun C A w (BNet.init n first a0) bsteps').sent → Ok m := by
     intro m hm; rw [← hr.sent] at hm; exact hok m hm
   obtain ⟨msteps, h1, h2, h3⟩ :=
@@ -747,7 +769,9 @@ theorem getRemoteObject_built_lists_every_requested (known : List (String × Ifa
       | some i => exact ⟨i, rfl, List.mem_filterMap.mpr ⟨a, ha, hr⟩⟩
 
 /-- ... and it AGREES with the exported object (the hypothesis of the headline theorem
-`C11_call_through_agreeing_proxy`) whenever the instances given and the definitions known under the names given do. -/
+`C11_call_through_agreeing_proxy`) whenever the instances given and the definitions known under the names given do.
+(A GLUE lemma: the hypothesis is the conclusion element by element; what it adds is that a locally built proxy lists
+NOTHING ELSE - from `getRemoteObject_built_lists_every_requested`.  Instantiated by the `example` below.) -/
 theorem getRemoteObject_built_agrees (known : List (String × Iface)) (dest : Nat) (path : String)
     (p : IfacesParam) (px : Proxy) (h : getRemoteObjectPlan known dest path p = .built px) (o : ExpObj)
     (hag : ∀ l, p.toList? = some l → ∀ a, a ∈ l → ∀ i, a.resolve known = some i → i.AgreesIn o) :
@@ -892,6 +916,25 @@ example : lookupObj exProxy.path (exWorld.exports exProxy.dest) = some exObj ∧
   simp only [exProxy, List.mem_singleton] at hi
   subst hi
   exact Iface.agreesIn_of_find (by decide)
+
+/-- `getRemoteObject_built_agrees` instantiated: a proxy for `exObj` requested with the caller's own `DBusInterface`
+instance `exIface` (what the exporter declares) and the name of a locally known copy of it is built without
+introspection and `AgreesWith` the exported object - the hypothesis of the headline theorem. -/
+example : ∃ px, getRemoteObjectPlan [("org.t.K", exIface)] 2 "/o" (.many [.inst exIface, .name "org.t.K"]) = .built px ∧
+    px.ifaces = [exIface, exIface] ∧ px.AgreesWith exObj := by
+  refine ⟨_, rfl, rfl, ?_⟩
+  refine getRemoteObject_built_agrees [("org.t.K", exIface)] 2 "/o" (.many [.inst exIface, .name "org.t.K"]) _ rfl exObj ?_
+  intro l hl a ha i hi
+  injection hl with hl
+  subst hl
+  have hex : exIface.AgreesIn exObj := Iface.agreesIn_of_find (by decide)
+  simp only [List.mem_cons, List.not_mem_nil, or_false] at ha
+  rcases ha with rfl | rfl
+  · simp only [IfaceArg.resolve, Option.some.injEq] at hi; subst hi; exact hex
+  · have : i = exIface := by
+      have h : IfaceArg.resolve [("org.t.K", exIface)] (.name "org.t.K") = some exIface := by decide
+      rw [h] at hi; injection hi with hi; exact hi.symm
+    subst this; exact hex
 
 /-- The hypotheses of `C11_call_through_introspected_proxy` are satisfiable: C15's sample object (two declared
 interfaces, overwritten and deleted members) is `Declared`, its names and the standard ones are distinct, the empty
@@ -1103,7 +1146,7 @@ def exPrefix : List (BStep Nat) :=
 
 def exB3 : BNet Nat Unit := brun exCodec2 exAuth exWorld (BNet.init 3 (fun _ => 1) ()) exPrefix
 
-/-- The hypothesis of `bytes_quiescence_reachable` / `C11_bytes_completion_always_reachable_partial` holds for this
+/-- The hypothesis of `bytes_quiescence_reachable_in_domain` / `C11_bytes_completion_always_reachable_partial` holds for this
 run, the codec `exCodec2` (lawful on `exDomain`: `exCodec2_laws`) and the firing policy `exFire`: the run is NOT
 quiescent (one stamped call on the wire to client 2, 11 bytes of a frame on the wire to the bus and 5 in the bus's
 buffer); the draining schedule stops after 8 steps, and everything serialised up to there is in the domain - hence
@@ -1137,42 +1180,43 @@ example : (∀ fuel m, m ∈ (brun exCodec2 exAuth exWorld (BNet.init 3 (fun _ =
     rw [this] at h3
     exact absurd h3 (by decide)
 
-/-! ### the handshake hypotheses are satisfiable -/
+/-! ### the hypotheses of the synthetic handshake start are satisfiable -/
 
-def lnAUTH : Txdbus.Proto.Bytes := [65, 85, 84, 72]
 def lnBEGIN : Txdbus.Proto.Bytes := [66, 69, 71, 73, 78]
 def lnOK : Txdbus.Proto.Bytes := [79, 75]
 /-- an authenticator that reports success at `BEGIN` (bus side) and at `OK` (client side) -/
 def exAuthH : Txdbus.Proto.Auth Unit :=
   ⟨fun a l => if l = lnBEGIN ∨ l = lnOK then (a, .success) else (a, .cont)⟩
-def exHsUp : Nat → Txdbus.Proto.Bytes := fun _ => Txdbus.Proto.Spec.unlines ([lnAUTH] ++ [lnBEGIN])
-def exHsDown : Nat → Txdbus.Proto.Bytes := fun _ => Txdbus.Proto.Spec.unlines ([] ++ [lnOK])
+/-- the state of real connections between the client's `BEGIN` and the bus's reading it: the bus still expects `BEGIN`;
+the clients are in binary mode already (client 1 is the exception, to exercise the client side: it still expects `OK`) -/
+def exHsUp : Nat → Txdbus.Proto.Bytes := fun _ => Txdbus.Proto.Spec.unlines ([] ++ [lnBEGIN])
+def exHsDown : Nat → Txdbus.Proto.Bytes := fun c => if c = 1 then Txdbus.Proto.Spec.unlines ([] ++ [lnOK]) else []
 
-/-- client 0 writes two calls behind its `AUTH` / `BEGIN` lines; the bus's first read takes the 13 handshake bytes, the
-first frame and 5 bytes of the second in ONE read; client 2's first read takes `OK` and both forwarded calls; the
-links of client 1 are read too (they carry only the handshake) -/
+/-- client 0 writes two calls behind its `BEGIN` (in reality the first frame there is `Hello`: not in this model); the
+bus's first read takes the 7 bytes of `BEGIN\r\n`, the first frame and 5 bytes of the second in ONE read; client 2 is in
+binary mode from the start; the links of client 1 carry only handshake lines and are read too -/
 def exStepsH : List (BStep Nat) :=
   [.call 0 (.viaProxy exProxy none "echo" [7]), .call 0 (.viaProxy exProxy none "echo" [9]),
-   .readBus 0 34, .readBus 0 1000, .readClient 2 1000 [.now (.value (.obj 8)), .now (.value (.obj 10))],
-   .readBus 2 17, .readBus 2 1000, .readClient 0 1000 [], .readBus 1 13, .readClient 1 4 []]
+   .readBus 0 28, .readBus 0 1000, .readClient 2 1000 [.now (.value (.obj 8)), .now (.value (.obj 10))],
+   .readBus 2 11, .readBus 2 1000, .readClient 0 3 [], .readClient 0 1000 [], .readBus 1 7, .readClient 1 4 []]
 
 def exBH : BNet Nat Unit :=
-  brun exCodec2 exAuthH exWorld (BNet.initH 3 (fun _ => 1) () exHsUp exHsDown) exStepsH
+  brun exCodec2 exAuthH exWorld (BNet.initH 3 (fun _ => 1) (fun _ => ()) (fun _ => ()) exHsUp exHsDown) exStepsH
 
-/-- every hypothesis of `C11_bytes_from_handshake_partial` holds for this run: the handshakes are acceptable, the first
-read of every link takes its handshake (`HSRun`), everything serialised is in the codec's domain, the run ends
-quiescent; both calls completed with what was returned -/
-example : (∀ c, ∃ lines last, exHsUp c = Txdbus.Proto.Spec.unlines (lines ++ [last]) ∧ HandshakeOK exAuthH () lines last) ∧
-    (∀ c, ∃ lines last, exHsDown c = Txdbus.Proto.Spec.unlines (lines ++ [last]) ∧ HandshakeOK exAuthH () lines last) ∧
-    HSRun exCodec2 exAuthH exWorld exHsUp exHsDown (BNet.initH 3 (fun _ => 1) () exHsUp exHsDown) exStepsH ∧
+/-- every hypothesis of `C11_bytes_from_handshake_partial` holds for this run: each direction of each link is binary or
+has an acceptable handshake, the first read of every line-mode link takes its handshake (`HSRun`), everything serialised
+is in the codec's domain, the run ends quiescent; both calls completed with what was returned -/
+example : (∀ c, HsOK exAuthH () (exHsUp c)) ∧ (∀ c, HsOK exAuthH () (exHsDown c)) ∧
+    HSRun exCodec2 exAuthH exWorld exHsUp exHsDown
+      (BNet.initH 3 (fun _ => 1) (fun _ => ()) (fun _ => ()) exHsUp exHsDown) exStepsH ∧
     (∀ m, m ∈ exBH.sent → m ∈ exDomain) ∧ exBH.Quiescent ∧
     (exBH.cl 0).completions = [(1, .single 8), (2, .single 10)] := by
-  have hlen : ∀ l ∈ [lnAUTH] ++ [lnBEGIN], Txdbus.Proto.Spec.hasCRLF l = false ∧
-      l.length ≤ Txdbus.Gen.ProtoConst.maxAuthLength := by decide
-  have hlen2 : ∀ l ∈ ([] : List Txdbus.Proto.Bytes) ++ [lnOK], Txdbus.Proto.Spec.hasCRLF l = false ∧
-      l.length ≤ Txdbus.Gen.ProtoConst.maxAuthLength := by decide
-  refine ⟨fun _ => ⟨[lnAUTH], lnBEGIN, rfl, hlen, (), (), by decide, by decide⟩,
-    fun _ => ⟨[], lnOK, rfl, hlen2, (), (), by decide, by decide⟩, by decide +kernel, ?_, ?_, ?_⟩
+  have hB : HandshakeOK exAuthH () [] lnBEGIN := ⟨by decide, (), (), by decide, by decide⟩
+  have hO : HandshakeOK exAuthH () [] lnOK := ⟨by decide, (), (), by decide, by decide⟩
+  refine ⟨fun _ => Or.inr ⟨[], lnBEGIN, rfl, hB⟩, fun c => ?_, by decide +kernel, ?_, ?_, ?_⟩
+  · by_cases hc : c = 1
+    · exact Or.inr ⟨[], lnOK, by simp [exHsDown, hc], hO⟩
+    · exact Or.inl (by simp [exHsDown, hc])
   · have h1 : exBH.sent = [exC1, exC2, exC1.withSender 0, exC2.withSender 0, exR1, exR2, exR1.withSender 2,
         exR2.withSender 2] := by decide +kernel
     intro m hm
@@ -1268,10 +1312,10 @@ end Txdbus.Net
 #print axioms Txdbus.Net.bytes_run_simulated
 #print axioms Txdbus.Net.C11_bytes_any_delivery_order_partial
 #print axioms Txdbus.Net.bytes_nothing_stuck_in_a_receiver
-#print axioms Txdbus.Net.bytes_quiescence_reachable
-#print axioms Txdbus.Net.bytes_quiescence_reachable_in_class
+#print axioms Txdbus.Net.bytes_quiescence_reachable_in_domain
+#print axioms Txdbus.Net.bytes_quiescence_reachable_in_class_in_domain
 #print axioms Txdbus.Net.C11_bytes_completion_always_reachable_partial
-#print axioms Txdbus.Net.bytes_run_from_handshake_reduces
+#print axioms Txdbus.Net.bytes_run_from_handshake_reduces_partial
 #print axioms Txdbus.Net.C11_bytes_from_handshake_partial
 #print axioms Txdbus.Net.C11_wire_codec_laws_c03
 #print axioms Txdbus.Net.C11_bytes_any_delivery_order_c03_partial
